@@ -16,6 +16,7 @@ HARNESS = {"bin": "pvh_c13", "features": "default"}
 THEOREMS = [
     "PV.C13.random_eq_spec",
     "PV.C13.linear_eq_spec",
+    "PV.C13.linear_eq_spec_utf8",
     "PV.C13.linear_eq_spec_monotone",
     "PV.C13.linear_eq_random",
     "PV.C13.locateOnly_pure",
